@@ -43,7 +43,11 @@ def sh(cmd, timeout=600, cwd=None, env=None, inp=None):
 def coq_build():
     """Full .vo build of the development (no -vos). Returns (ok, log)."""
     os.makedirs(BUILD, exist_ok=True)
-    if not os.path.exists(os.path.join(COQ, 'Makefile')):
+    vs = sorted(f for f in os.listdir(os.path.join(COQ, 'theories')) if f.endswith('.v'))
+    proj = '-Q theories Cstl\n' + ''.join('theories/%s\n' % f for f in vs)
+    pp = os.path.join(COQ, '_CoqProject')
+    if not os.path.exists(pp) or open(pp).read() != proj or not os.path.exists(os.path.join(COQ, 'Makefile')):
+        open(pp, 'w').write(proj)
         rc, out = sh('coq_makefile -f _CoqProject -o Makefile', cwd=COQ)
         if rc:
             return False, out
@@ -126,17 +130,22 @@ def build_runner():
     d = os.path.join(BUILD, 'ocaml')
     exe = os.path.join(d, 'runner')
     srcs = [os.path.join(ROOT, 'runner', f) for f in os.listdir(os.path.join(ROOT, 'runner')) if f.endswith('.ml')]
-    deps = srcs + [os.path.join(COQ, 'Extract.v')] + \
+    deps = srcs + \
         [os.path.join(COQ, 'theories', f) for f in os.listdir(os.path.join(COQ, 'theories')) if f.endswith('Model.vo') or f == 'Prelude.vo']
     if os.path.exists(exe) and all(os.path.getmtime(x) <= os.path.getmtime(exe) for x in deps if os.path.exists(x)):
         return True, 'up to date'
     sh('rm -rf %s' % d)
     os.makedirs(d)
-    rc, out = sh('timeout 600 coqc -Q %s/theories Cstl %s/Extract.v -o %s/Extract.vo' % (COQ, COQ, d), cwd=d, timeout=700)
+    mods = sorted(f[:-2] for f in os.listdir(os.path.join(COQ, 'theories')) if f.endswith('Model.v'))
+    with open(os.path.join(d, 'Extract.v'), 'w') as f:
+        f.write('(* generated by lib/core.py: ExtrOcamlBasic only, no Extract Constant *)\n'
+                'Require Extraction.\nRequire Import ExtrOcamlBasic.\nExtraction Language OCaml.\n'
+                'From Cstl Require %s.\nSeparate Extraction %s.\n' % (' '.join(mods), ' '.join(mods)))
+    rc, out = sh('timeout 600 coqc -Q %s/theories Cstl Extract.v' % COQ, cwd=d, timeout=700)
     if rc:
         return False, out
     sh('cp %s/runner/*.ml .' % ROOT, cwd=d)
-    rc, out2 = sh('ocamlfind ocamlopt -w -a -O3 -o runner $(ocamlfind ocamldep -sort *.mli *.ml)', cwd=d, timeout=600)
+    rc, out2 = sh("ocamlfind ocamlopt -w -a -O3 -o runner $(ocamlfind ocamldep -sort *.mli $(ls *.ml | grep -v '^main.ml$')) main.ml", cwd=d, timeout=600)
     return rc == 0, out + out2
 
 
